@@ -368,7 +368,7 @@ BASELINE_PROPERTIES = {"row_count", "supports_cas", "atomic_write_failures"}  # 
 
 
 def _name_tokens(n: str) -> set:
-    return {t for t in n.lower().split("_") if t}
+    return {(t[:-1] if len(t) > 3 and t.endswith("s") and not t.endswith("ss") else t) for t in n.lower().split("_") if t}  # (files ~ file)
 
 
 def _undo_renames(parsed: List[Tuple[str, ast.Module]], known: Optional[set]) -> None:
@@ -404,8 +404,16 @@ def _undo_renames(parsed: List[Tuple[str, ast.Module]], known: Optional[set]) ->
             continue
         v = gone[0]
         scored = sorted(((len(_name_tokens(v) & _name_tokens(n)) / max(1, len(_name_tokens(v) | _name_tokens(n))), n) for n in fresh), reverse=True)
-        if scored[0][0] >= 0.5 and (len(scored) == 1 or scored[1][0] < scored[0][0]) and scored[0][1] not in renames:
-            renames[scored[0][1]] = v
+        best = [n for sc, n in scored if sc == scored[0][0]]
+        if scored[0][0] >= 0.5 and len(best) > 1:
+            # a tie between the halves of a function that was SPLIT: the successor is the half that calls the other(s)
+            fd_by = {fd.name: fd for fd in fdefs}
+            callers = [n for n in best if all(any(isinstance(x, ast.Attribute) and x.attr == o or isinstance(x, ast.Name) and x.id == o
+                                                  for x in ast.walk(fd_by[n])) for o in best if o != n)]
+            if len(callers) == 1:
+                best = callers
+        if scored[0][0] >= 0.5 and len(best) == 1 and best[0] not in renames:
+            renames[best[0]] = v
     if not renames:
         return
     for _fn, tree in parsed:
